@@ -874,6 +874,8 @@ def _zcmp(op):
 
 def _zbin(op, rev=False):
     def f(self, o):
+        if isinstance(o, float) and not getattr(o, "_vf_sym", False):
+            return SymZFloat.arith(self, o, op, rev)
         b = zt(o)
         if b is None:
             return NotImplemented
@@ -998,13 +1000,96 @@ class SymZ:
 
 
 class SymZFloat:
-    """a double known to hold exactly the integer `z` (|z| < 2**53)"""
+    """a double known to hold exactly the integer `z` with |z| < 2**53: arithmetic with integer-valued floats stays exact as long
+    as every result stays below 2**53 (checked by the solver on each operation), so it is done on the integers"""
 
     _vf_sym = True
     _vf_float = True
 
     def __init__(self, z):
         self.z = z
+
+    @staticmethod
+    def _exact(z):
+        if isinstance(z, int):
+            if abs(z) >= 2**53:
+                raise Unsupported("float arithmetic beyond 2**53")
+            return SymZFloat(z)
+        if not B(z3.And(z.t > -(2**53), z.t < 2**53)):
+            raise Unsupported("float arithmetic beyond 2**53")
+        return SymZFloat(z)
+
+    @staticmethod
+    def _int_of(o):
+        if isinstance(o, SymZFloat):
+            return o.z
+        if isinstance(o, float) and not getattr(o, "_vf_sym", False):
+            if o != int(o) or abs(o) >= 2**53:
+                raise Unsupported("non-integral float in exact-integer float arithmetic")
+            return int(o)
+        if isinstance(o, (int, SymZ)) and not isinstance(o, bool):
+            return o
+        raise Unsupported("operand of exact-integer float arithmetic")
+
+    @staticmethod
+    def arith(a, b, op, rev=False):
+        x, y = SymZFloat._int_of(a), SymZFloat._int_of(b)
+        if rev:
+            x, y = y, x
+        x = x if isinstance(x, SymZ) else SymZ(z3.IntVal(x))
+        r = op(x.t, zt(y))
+        return SymZFloat._exact(mkz(r))
+
+    def __mul__(self, o):
+        return SymZFloat.arith(self, o, lambda a, b: a * b)
+
+    __rmul__ = __mul__
+
+    def __add__(self, o):
+        return SymZFloat.arith(self, o, lambda a, b: a + b)
+
+    __radd__ = __add__
+
+    def __sub__(self, o):
+        return SymZFloat.arith(self, o, lambda a, b: a - b)
+
+    def __mod__(self, o):
+        d = SymZFloat._int_of(o)
+        if not (isinstance(d, int) and d > 0):
+            raise Unsupported("float modulo by a non-constant")
+        z = self.z if isinstance(self.z, SymZ) else SymZ(z3.IntVal(self.z))
+        return SymZFloat._exact(z % d)  # fmod of exact integers with a positive divisor == integer modulo (sign of the divisor)
+
+    def __floordiv__(self, o):
+        d = SymZFloat._int_of(o)
+        if not (isinstance(d, int) and d > 0):
+            raise Unsupported("float floor division by a non-constant")
+        z = self.z if isinstance(self.z, SymZ) else SymZ(z3.IntVal(self.z))
+        return SymZFloat._exact(z // d)
+
+    def _cmp(self, o, op):
+        return op(self.z if isinstance(self.z, SymZ) else SymZ(z3.IntVal(self.z)), SymZFloat._int_of(o))
+
+    def __eq__(self, o):
+        return self._cmp(o, lambda a, b: a == b)
+
+    def __ne__(self, o):
+        return self._cmp(o, lambda a, b: a != b)
+
+    def __lt__(self, o):
+        return self._cmp(o, lambda a, b: a < b)
+
+    def __le__(self, o):
+        return self._cmp(o, lambda a, b: a <= b)
+
+    def __gt__(self, o):
+        return self._cmp(o, lambda a, b: a > b)
+
+    def __ge__(self, o):
+        return self._cmp(o, lambda a, b: a >= b)
+
+    def __hash__(self):
+        return 0
 
     def round_half_even_int(self):
         return self.z
